@@ -41,10 +41,51 @@ theorem optimizeAnd_sound {b : Builder} (hb : WF b) (x y w : Nat) (hx : x < b.co
   · have := getCached_sound hb _ w h
     exact ⟨this.1, fun inp hi => by rw [this.2 inp hi, gateVal_and]⟩
 
-theorem pushAndRaw_post {b : Builder} (hb : WF b) (x y : Nat) (hx : x < b.counter) (hy : y < b.counter) :
+/-- what is left when `optimize_and` finds nothing: two different non-constant wires -/
+theorem optimizeAnd_none {b : Builder} {x y : Nat} (h : b.optimizeAnd x y = none) :
+    (x ≠ y ∧ 2 ≤ x ∧ 2 ≤ y) ∧ b.getCached (.and x y) = none := by
+  unfold optimizeAnd at h
+  split at h
+  · simp at h
+  · rename_i h0
+    split at h
+    · simp at h
+    · rename_i h1
+      split at h
+      · simp at h
+      · rename_i h2
+        refine ⟨by omega, ?_⟩
+        simp only at h
+        split at h
+        · simp at h
+        · exact h
+
+/-- with de-duplication on, a cache miss in both orders means that no AND gate over this pair exists yet -/
+theorem fresh_pair {b : Builder} (hb : WF b) {x y : Nat} (hc : b.cacheOn = true) (hm : b.getCached (.and x y) = none)
+    (i x' y' : Nat) (hi : b.gates[i]? = some (BGate.and x' y')) : ¬ samePair x y x' y' := by
+  intro hs
+  have hcov := hb.cacheCover hc i x' y' hi
+  simp only [getCached, hc, Bool.not_true, Bool.false_eq_true, if_false] at hm
+  cases h1 : b.cache[BGate.and x y]? with
+  | some w => simp [h1] at hm
+  | none =>
+    simp only [h1] at hm
+    rcases hs with ⟨rfl, rfl⟩ | ⟨rfl, rfl⟩
+    · rw [h1] at hcov; simp at hcov
+    · rw [hm] at hcov; simp at hcov
+
+theorem pushAndRaw_post {b : Builder} (hb : WF b) (x y : Nat) (hx : x < b.counter) (hy : y < b.counter)
+    (hn : (x ≠ y ∧ 2 ≤ x ∧ 2 ≤ y) ∧ b.getCached (.and x y) = none) :
     Post b (· && ·) x y (b.pushGate (.and x y)) := by
   have hg : opsLt (.and x y) b.counter := ⟨hx, hy⟩
-  obtain ⟨hwf, hw, hsem⟩ := pushGate_spec hb (.and x y) hg
+  obtain ⟨hwf, hw, hsem⟩ := pushGate_spec hb (.and x y) hg (fun x' y' h => by
+    simp only [BGate.and.injEq] at h
+    obtain ⟨rfl, rfl⟩ := h
+    exact hn.1)
+    (fun hc x' y' h i x2 y2 hi => by
+      simp only [BGate.and.injEq] at h
+      obtain ⟨rfl, rfl⟩ := h
+      exact fresh_pair hb hc hn.2 i x2 y2 hi)
   refine ⟨hwf, pushGate_ext b _, by rw [hw, pushGate_counter]; omega, fun inp hi => ?_⟩
   rw [hw, hsem inp hi, gateVal_and]
 
@@ -161,7 +202,8 @@ theorem pushAnd_post (fuel xfuel : Nat) : RecOk (· && ·) (pushAnd fuel xfuel) 
     · rename_i w hw
       have := optimizeAnd_sound hb x y w hx hy hw
       exact Post.of_same hb this.1 this.2
-    · exact pushAndRaw_post hb x y hx hy
+    · rename_i hnone
+      exact pushAndRaw_post hb x y hx hy (optimizeAnd_none hnone)
   | succ fuel ih =>
     intro b x y hb hx hy
     unfold pushAnd
@@ -169,14 +211,15 @@ theorem pushAnd_post (fuel xfuel : Nat) : RecOk (· && ·) (pushAnd fuel xfuel) 
     · rename_i w hw
       have := optimizeAnd_sound hb x y w hx hy hw
       exact Post.of_same hb this.1 this.2
-    · simp only
+    · rename_i hnone
+      simp only
       split
       · rename_i r hr; exact andRule1_post ih hb x y hx hy r hr
       · split
         · rename_i r hr; exact andRule2_post (pushXor_post xfuel) hb x y hx hy r hr
         · split
           · rename_i r hr; exact andRule3_post (pushXor_post xfuel) hb x y hx hy r hr
-          · exact pushAndRaw_post hb x y hx hy
+          · exact pushAndRaw_post hb x y hx hy (optimizeAnd_none hnone)
 
 
 end Builder
